@@ -20,9 +20,13 @@ class Y(Core.Component):
     pass
 
 
+class XS(X):
+    """A component class derived from another component class (an agent may carry both)."""
+
+
 # (pool key, agent id, component types fixed before joining)
-AGENTS = [('a1', 'a1', ('X',)), ('a1b', 'a1', ('X', 'Y')), ('a2', 'a2', ()), ('a3', 'a3', ('Y',))]
-TYPES = {'X': X, 'Y': Y}
+AGENTS = [('a1', 'a1', ('X',)), ('a1b', 'a1', ('X', 'Y')), ('a2', 'a2', ()), ('a3', 'a3', ('XS', 'Y', 'X'))]
+TYPES = {'X': X, 'Y': Y, 'XS': XS}
 
 # kind -> (constructor args, continuous?, in-range position)
 WORLDS = {
@@ -70,7 +74,7 @@ class Harness:
         self.keys = [a[0] for a in AGENTS]
         self.idof = {a[0]: a[1] for a in AGENTS}
         self.ids = ['a1', 'a2', 'a3', 'zz']
-        self._ops = [['add', k] for k in self.keys] + [['remove', i] for i in self.ids]
+        self._ops = [['add', k] for k in self.keys] + [['remove', i] for i in self.ids] + [['complete']]
 
     def fresh(self):
         w = World()
@@ -95,7 +99,7 @@ class Harness:
         return w
 
     def ops(self, w):
-        return self._ops
+        return self._ops if w.model.is_running() else self._ops[:-1]
 
     def canon(self, w):
         return self.cn(w.model, [w.agents[k] for k in self.keys + ['probe']], w.comps)
@@ -113,6 +117,9 @@ class Harness:
     def apply(self, w, op):
         env = w.model.environment
         res = self._resident_ids(w)
+        if op[0] == 'complete':
+            w.model.complete()      # a finished model still has an environment: agents may leave and (re-)join
+            return
         if op[0] == 'add':
             key = op[1]
             aid = self.idof[key]
@@ -258,7 +265,7 @@ class Harness:
         return repr(a)
 
     def refstate(self, w):
-        return tuple(w.ref)
+        return (tuple(w.ref), w.model.is_running())
 
     def outcome(self, w):
         return w.last
